@@ -72,6 +72,10 @@ def apply(ex, fn, args, kwargs, st, n):
             vals.update(kwargs)
             if set(vals) != set(names):
                 raise PyExc(ExcV('TypeError'))
+            for i, nm in enumerate(names):
+                if vals[nm].pt.kind == 'opt' and pt.args[i].kind != 'opt':
+                    # the declared field type excludes None: an obligation (safety.TypeError) that the value is not None here
+                    vals[nm] = ex.unwrap_opt(st, vals[nm], n)
             parts = [ex.coerce(vals[nm], pt.args[i], st).t for i, nm in enumerate(names)]
             return SV(pt, ptypes.mk_tuple(pt, parts))
     if k == 'module' and fn.py in ('defaultdict', 'OrderedDict', 'collections.OrderedDict', 'collections.defaultdict'):
